@@ -175,10 +175,13 @@ func sameOutcome(a, b connOutcome) bool {
 
 func TestC09(t *testing.T) {
 	rec := ev.Get("C09")
-	rec.Rule("target key T, a hello sealed to T (C03 generator) and, in half of the cases, an HRR plus a well-formed retried hello; key lists of 1..4 entries drawn from {T, same-id keys with equal/different suite lists, other-id keys, same-id keys with another public name}, every position of T, T absent, two drawn orders. The list is handed over in two WithKeys options (the first a slice with spare capacity that another connection of the application reuses in between). Metamorphic oracle: outcome(list) == outcome([T]) when T is in the list, == outcome([]) otherwise; outcome = (error class, accepted, first record, SNI, ALPN, second record/error, alert bytes). distinct = list shape; non-trivial = list holds another key with T's id")
+	rec.Rule("target key T, a hello sealed to T (C03 generator) and, in half of the cases, an HRR plus a well-formed retried hello; hellos up to the record limit in a third of the cases; key lists of 1..6 entries drawn from {T, same-id keys with equal/different suite lists, other-id keys, same-id keys with another public name}, every position of T, T absent, two drawn orders. The list is handed over in two WithKeys options (the first a slice with spare capacity that another connection of the application reuses in between). Metamorphic oracle: outcome(list) == outcome([T]) when T is in the list, == outcome([]) otherwise; outcome = (error class, accepted, first record, SNI, ALPN, second record/error, alert bytes). distinct = list shape; non-trivial = list holds another key with T's id")
 	rec.Mandatory("T_first_sameid_neighbour", "T_middle_sameid_neighbour", "T_last_sameid_neighbour", "T_absent_sameid_present", "retry", "permuted")
 	rapid.Check(t, func(t *rapid.T) {
-		sc := drawSealed(t, false)
+		// a third of the hellos may be large (up to the record limit): what a trial costs
+		// must not decide whether the right key gets its turn
+		bigHello := rapid.IntRange(0, 2).Draw(t, "big_hello") == 0
+		sc := drawSealed(t, bigHello)
 		T := sc.Key
 		stream := append([]byte{}, sc.Record...)
 		var hrr []byte
@@ -203,12 +206,20 @@ func TestC09(t *testing.T) {
 		}
 		// other keys
 		n := rapid.IntRange(0, 3).Draw(t, "n_other")
+		crowd := bigHello && rapid.Bool().Draw(t, "big_hello_many_others")
+		if crowd {
+			n = 3 + rapid.IntRange(0, 2).Draw(t, "n_other_more")
+		}
 		var others []*hello.Key
 		var shape []string
 		sameIDOther := false
 		for i := 0; i < n; i++ {
 			var k *hello.Key
-			switch rapid.IntRange(0, 4).Draw(t, "other_kind") {
+			kind := rapid.IntRange(0, 4).Draw(t, "other_kind")
+			if crowd && kind > 2 {
+				kind = 0 // a crowd of keys that all pass the id / suite filter
+			}
+			switch kind {
 			case 4: // the target's own key pair re-issued under another config (other id / name / suites)
 				id := T.ID
 				if rapid.Bool().Draw(t, "samepriv_otherid") {
@@ -246,6 +257,9 @@ func TestC09(t *testing.T) {
 		pos := -1
 		if present {
 			pos = uniform(t, "T_pos", len(others)+1)
+			if crowd && rapid.Bool().Draw(t, "T_last") {
+				pos = len(others)
+			}
 			list = append(append(append([]*hello.Key{}, others[:pos]...), T), others[pos:]...)
 		}
 		if len(list) == 0 {
